@@ -248,6 +248,50 @@ func runC10(c *core.Ctx) core.Meta {
 		}
 	})
 
+	// ---------------- R10.8 a page is recorded on the device that owns its physical page ----------------
+	st8 := c.Rule("R10.8", "the DeviceID of every page built by the allocator is deviceIDByPAddr applied to the very physical address stored in the same page (the requested device may be a unified GPU that owns no memory itself)", 3)
+	{
+		paddrOf := map[string]string{} // page literal provenance (base) -> PAddr provenance
+		type devStore struct {
+			fn   *ssa.Function
+			in   ssa.Instruction
+			base string
+			val  string
+		}
+		var devs []devStore
+		for _, fn := range pint.Funcs {
+			for _, b := range fn.Blocks {
+				for _, in := range b.Instrs {
+					s, ok := in.(*ssa.Store)
+					if !ok {
+						continue
+					}
+					f := core.FieldOfAddr(s.Addr)
+					if f == nil || f.Pkg() == nil || f.Pkg().Path() != core.VMPkg {
+						continue
+					}
+					base := fmt.Sprintf("%s#%p", core.FuncName(fn), s.Addr.(*ssa.FieldAddr).X)
+					switch f.Name() {
+					case "PAddr":
+						paddrOf[base] = prov.Of(s.Val)
+					case "DeviceID":
+						devs = append(devs, devStore{fn, in, base, prov.Of(s.Val)})
+					}
+				}
+			}
+		}
+		for _, d := range devs {
+			st8.Instances++
+			pa := paddrOf[d.base]
+			ok := pa != "" && d.val == "recv.deviceIDByPAddr("+pa+")"
+			st8.Ob(ok)
+			st8.Sample("%s: page.DeviceID = %s", core.FuncName(d.fn), short(d.val))
+			if !ok {
+				c.ReportAt("R10.8", d.fn, d.in.Pos(), "DeviceID:source", "a page's DeviceID is "+short(d.val)+", not the device that owns its physical address ("+short(pa)+"): when the requested device is a unified GPU the page is recorded on a device that has no memory, outside of which its physical page lies")
+			}
+		}
+	}
+
 	// ---------------- R10.4 no container mutated while ranged ----------------
 	st4 := c.Rule("R10.4", "a `for … range X` loop whose body reassigns X (remove-while-iterating) leaves the loop right after the assignment (return or break); otherwise elements are skipped or the stale length indexes past the end", 1)
 	for _, p := range []*PkgInfo{pd, pint} {
